@@ -33,6 +33,33 @@ type estPeer struct {
 	sessions []*yamux.Session
 }
 
+// stallConn: a connection whose peer goes completely silent at stallAt — nothing is read any more (so nothing is answered),
+// nothing is closed: only the other side's keep-alive can notice.
+type stallConn struct {
+	net.Conn
+	stallAt time.Time
+	closed  chan struct{}
+	once    sync.Once
+}
+
+func (c *stallConn) Read(b []byte) (int, error) {
+	if time.Now().After(c.stallAt) {
+		<-c.closed
+		return 0, net.ErrClosed
+	}
+	_ = c.Conn.SetReadDeadline(c.stallAt)
+	n, err := c.Conn.Read(b)
+	if ne, ok := err.(net.Error); ok && ne.Timeout() {
+		<-c.closed
+		return 0, net.ErrClosed
+	}
+	return n, err
+}
+func (c *stallConn) Close() error {
+	c.once.Do(func() { close(c.closed) })
+	return c.Conn.Close()
+}
+
 func (p *estPeer) serve(srvCfg *tls.Config) {
 	for {
 		c, err := p.ln.Accept()
@@ -52,9 +79,18 @@ func (p *estPeer) serve(srvCfg *tls.Config) {
 		case "close":
 			_ = c.Close()
 		default:
+			if kind == "healthy-then-silent" {
+				sc := &stallConn{Conn: c, stallAt: time.Now().Add(3 * time.Second), closed: make(chan struct{})}
+				p.mu.Lock()
+				p.conns[len(p.conns)-1] = sc
+				p.mu.Unlock()
+				c = sc
+			}
 			go func() {
 				tc := tls.Server(c, srvCfg)
-				s, err := yamux.Server(tc, yamuxQuiet())
+				ycfg := yamuxQuiet()
+				ycfg.EnableKeepAlive = false // the peer is passive: it must be the PROXY's side that notices a dead link
+				s, err := yamux.Server(tc, ycfg)
 				if err != nil {
 					_ = c.Close()
 					return
@@ -87,74 +123,111 @@ func c10EstablisherTLS(t *testing.T, e *Env) {
 	type scen struct {
 		n      int
 		script []string
-		budget time.Duration // real time within which the pool must be back at full strength
+		budget time.Duration // real time within which the pool must be at full strength
+		reheal time.Duration // > 0: a registered session's peer then goes silent (no FIN); within this time its slot must have been recycled and refilled
 	}
 	scens := []scen{
-		{2, []string{"healthy", "silent"}, 40 * time.Second}, // one accepted-but-silent connection: its slot must be freed and refilled
-		{1, []string{"close", "healthy"}, 20 * time.Second},  // a connection closed at once
-		{2, nil, 10 * time.Second},                           // control: healthy peer
+		{2, []string{"healthy", "silent"}, 40 * time.Second, 0},                  // one accepted-but-silent connection: its slot must be freed and refilled
+		{1, []string{"close", "healthy"}, 20 * time.Second, 0},                   // a connection closed at once
+		{2, nil, 10 * time.Second, 0},                                            // control: healthy peer
+		{1, []string{"healthy-then-silent"}, 10 * time.Second, 75 * time.Second}, // a registered session whose peer goes silent without closing
 	}
 	if e.Thorough() {
-		scens = append(scens, scen{3, []string{"silent", "healthy", "silent", "close"}, 80 * time.Second}, scen{1, []string{"silent", "silent"}, 60 * time.Second})
+		scens = append(scens, scen{3, []string{"silent", "healthy", "silent", "close"}, 80 * time.Second, 0}, scen{1, []string{"silent", "silent"}, 60 * time.Second, 0},
+			scen{2, []string{"healthy", "healthy-then-silent"}, 10 * time.Second, 75 * time.Second})
 	}
-	for si, sc := range scens {
-		ln, err := net.Listen("tcp", "127.0.0.1:0")
-		if err != nil {
-			t.Fatal(err)
-		}
-		peer := &estPeer{ln: ln, script: sc.script}
-		go peer.serve(srvCfg)
-		ctx, cancel := context.WithCancel(context.Background())
-		name := fmt.Sprintf("est%d", muxWorldSeq.Add(1))
-		labels := []string{name, "establisher", "verif"}
-		builder := func(cb mux.AddNewMux, lt context.Context) (mux.MuxProvider, error) {
-			return mux.NewMuxEstablisherProvider(lt, name, cb, int64(sc.n),
-				config.TCPTLSInfo{ConnectionString: ln.Addr().String(), TLSConfig: k.config(tlsCase{true, true, "good", false})}, labels, log.NewNoopLogger())
-		}
-		mgr, err := mux.NewCustomMultiMuxManager(ctx, name, builder, nil, nil, log.NewNoopLogger())
-		if err != nil {
-			t.Fatal(err)
-		}
-		mgr.Start()
-		start := time.Now()
-		maxSeen, healed := 0, false
-		for time.Since(start) < sc.budget {
-			r := len(mgr.GetMuxConnections())
-			if r > maxSeen {
-				maxSeen = r
+	type outcome struct {
+		op    string
+		viols []string
+	}
+	results := make([]outcome, len(scens))
+	var wg sync.WaitGroup
+	for si, sc := range scens { // the scenarios wait in real time (yamux's 10 s / 30 s timers): run them side by side
+		wg.Add(1)
+		go func() {
+			defer wg.Done()
+			res := &results[si]
+			res.op = fmt.Sprintf("# establisher-tls scenario %d: pool %d, peer script %v", si, sc.n, sc.script)
+			ln, err := net.Listen("tcp", "127.0.0.1:0")
+			if err != nil {
+				res.viols = append(res.viols, "harness: "+err.Error())
+				return
 			}
-			if r == sc.n {
-				healed = true
-				break
+			peer := &estPeer{ln: ln, script: sc.script}
+			go peer.serve(srvCfg)
+			defer peer.stop()
+			ctx, cancel := context.WithCancel(context.Background())
+			defer cancel()
+			name := fmt.Sprintf("est%d", muxWorldSeq.Add(1))
+			labels := []string{name, "establisher", "verif"}
+			builder := func(cb mux.AddNewMux, lt context.Context) (mux.MuxProvider, error) {
+				return mux.NewMuxEstablisherProvider(lt, name, cb, int64(sc.n),
+					config.TCPTLSInfo{ConnectionString: ln.Addr().String(), TLSConfig: k.config(tlsCase{true, true, "good", false})}, labels, log.NewNoopLogger())
 			}
-			time.Sleep(50 * time.Millisecond)
-		}
-		took := time.Since(start).Round(100 * time.Millisecond)
-		op := fmt.Sprintf("# establisher-tls scenario %d: pool %d, peer script %v", si, sc.n, sc.script)
-		e.Emit(op, "#")
+			mgr, err := mux.NewCustomMultiMuxManager(ctx, name, builder, nil, nil, log.NewNoopLogger())
+			if err != nil {
+				res.viols = append(res.viols, "harness: "+err.Error())
+				return
+			}
+			mgr.Start()
+			accepted := func() int { peer.mu.Lock(); defer peer.mu.Unlock(); return peer.accepted }
+			start := time.Now()
+			maxSeen, healed := 0, false
+			for time.Since(start) < sc.budget {
+				r := len(mgr.GetMuxConnections())
+				maxSeen = max(maxSeen, r)
+				if r == sc.n {
+					healed = true
+					break
+				}
+				time.Sleep(50 * time.Millisecond)
+			}
+			if !healed {
+				res.viols = append(res.viols, fmt.Sprintf("real establisher over TLS: the peer is reachable and healthy (apart from %v at the start) but after %v the pool of %d holds %d session(s); the peer has accepted %d connection(s)",
+					sc.script, time.Since(start).Round(100*time.Millisecond), sc.n, len(mgr.GetMuxConnections()), accepted()))
+			}
+			if healed && sc.reheal > 0 {
+				// one registered session's peer has gone silent (3 s after it was accepted): the provider must notice (keep-alive),
+				// end that session and replace it
+				before := accepted()
+				t0, ok := time.Now(), false
+				for time.Since(t0) < sc.reheal {
+					r := len(mgr.GetMuxConnections())
+					maxSeen = max(maxSeen, r)
+					if accepted() > before && r == sc.n {
+						ok = true
+						break
+					}
+					time.Sleep(100 * time.Millisecond)
+				}
+				if !ok {
+					res.viols = append(res.viols, fmt.Sprintf("real establisher over TLS: the peer of a registered session went silent (no close) %v ago; the dead session was not replaced (pool of %d holds %d session(s), the peer has accepted %d connection(s), %d before): a slot freed by a dead session must become usable again",
+						time.Since(t0).Round(time.Second), sc.n, len(mgr.GetMuxConnections()), accepted(), before))
+				}
+			}
+			if maxSeen > sc.n {
+				res.viols = append(res.viols, fmt.Sprintf("real establisher over TLS: %d sessions registered in a pool of %d", maxSeen, sc.n))
+			}
+			cancel()
+			closed := false
+			for w := time.Now(); time.Since(w) < 20*time.Second; time.Sleep(50 * time.Millisecond) {
+				if mgr.IsClosed() && len(mgr.GetMuxConnections()) == 0 {
+					closed = true
+					break
+				}
+			}
+			if !closed && healed {
+				res.viols = append(res.viols, fmt.Sprintf("real establisher over TLS: after shutdown the manager is closed=%v with %d session(s) registered", mgr.IsClosed(), len(mgr.GetMuxConnections())))
+			}
+		}()
+	}
+	wg.Wait()
+	for _, res := range results {
+		e.Emit(res.op, "#")
 		e.Evals++
 		e.Count("establisher_tls_scenario")
-		peer.mu.Lock()
-		acc := peer.accepted
-		peer.mu.Unlock()
-		if maxSeen > sc.n {
-			e.Violation(map[string]any{"what": fmt.Sprintf("real establisher over TLS: %d sessions registered in a pool of %d", maxSeen, sc.n), "ops": []string{op}})
+		for _, v := range res.viols {
+			e.Violation(map[string]any{"what": v, "ops": []string{res.op}})
 		}
-		if !healed {
-			e.Violation(map[string]any{"what": fmt.Sprintf("real establisher over TLS: the peer is reachable and healthy (apart from %v at the start) but after %v the pool of %d holds %d session(s); the peer has accepted %d connection(s)",
-				sc.script, took, sc.n, len(mgr.GetMuxConnections()), acc), "ops": []string{op}})
-		}
-		cancel()
-		closed := false
-		for w := time.Now(); time.Since(w) < 20*time.Second; time.Sleep(50 * time.Millisecond) {
-			if mgr.IsClosed() && len(mgr.GetMuxConnections()) == 0 {
-				closed = true
-				break
-			}
-		}
-		if !closed && healed {
-			e.Violation(map[string]any{"what": fmt.Sprintf("real establisher over TLS: after shutdown the manager is closed=%v with %d session(s) registered", mgr.IsClosed(), len(mgr.GetMuxConnections())), "ops": []string{op}})
-		}
-		peer.stop()
 	}
 }
